@@ -25,9 +25,20 @@ def main():
     tags = ""
     if "--tags" in args:
         i = args.index("--tags"); tags = "-tags " + args[i+1]; del args[i:i+2]
+    if len(args) >= 2 and os.path.exists(os.path.join(args[1], "demo.txt")) and (len(args) == 2 or args[2].startswith("C")):
+        # batch-2 layout: demo.txt = "<pkg dir> <run regexp> [GODEBUG=..] [tags=..]"
+        f = open(os.path.join(args[1], "demo.txt")).read().split()
+        for x in f[2:]:
+            if x.startswith("GODEBUG="):
+                envs["GODEBUG"] = x[8:]
+            if x.startswith("tags="):
+                tags = "-tags " + x[5:]
+        args = [args[0], args[1], f[0], f[1]] + args[2:]
     prop, src, pkg, runre = args[:4]
     checks = args[4:] or [prop]
     n = os.path.basename(src.rstrip("/")).replace("change", "")
+    if "/seed2/" in src:
+        n = str(int(n) + 3)
     sid = "%s-%s" % (prop, n)
     wt = "/tmp/st-%s" % sid
     sh("git -C /repo worktree remove --force %s" % wt)
